@@ -188,4 +188,37 @@ theorem take_nFits_eq_filter (s : Sel K) (v : EF K) (hs : s.thr = some v) (nd : 
     rw [hfc, nFits_crit s v hs]
     exact key.symm
 
+/-- the same with the count capped at the number of fits (covers `('N', n)` with `n` beyond the end) -/
+theorem nFits_take_min (s : Sel K) (nd : Nat) (chi2 : List (EF K)) (m : Nat)
+    (hr : chi2.Pairwise (fun a b => EF.leSort a b = true))
+    (hna : ∀ v, s.thr = some v → ∀ c0, chi2.head? = some c0 → ∀ c ∈ chi2, EF.eq (crit s nd c0 c) v = false)
+    (hm : min (nFits s nd chi2) chi2.length ≤ m) : nFits s nd (chi2.take m) = nFits s nd chi2 := by
+  cases hs : s.thr with
+  | some v =>
+    have hle : nFits s nd chi2 ≤ chi2.length := by
+      cases chi2 with
+      | nil => simp [nFits]
+      | cons c0 t => rw [nFits_crit s v hs]; exact List.length_filter_le _ _
+    exact nFits_take s nd chi2 m hr hna (by omega)
+  | none =>
+    cases chi2 with
+    | nil => simp [nFits]
+    | cons c0 t =>
+      cases s <;> simp [Sel.thr] at hs
+      · -- A
+        simp only [nFits, List.length_cons] at hm ⊢
+        cases m with
+        | zero => omega
+        | succ m =>
+          simp only [List.take_succ_cons, List.length_cons, List.length_take]
+          omega
+      · -- N
+        rename_i k
+        simp only [nFits, List.length_cons] at hm ⊢
+        cases m with
+        | zero =>
+          have : k = 0 := by omega
+          simp [this]
+        | succ m => simp [List.take_succ_cons]
+
 end SF
